@@ -349,6 +349,33 @@ def validate(ctx, family, module, cfg, trace, env=None, name=None, timeout=1800,
     return res
 
 
+def vdrive_resumable(ctx, args, trace, timeout=3000, env=None, max_parts=12):
+    """Run a scenario driver whose watchdog ends the process (exit 3) after recording a hang; resume behind the hung
+    scenario (VERIF_START, scenario index from the last Reset event) and concatenate the parts into `trace`."""
+    parts, start = [], 0
+    idx = args.index(trace)
+    while len(parts) < max_parts:
+        p = "%s.part%d" % (trace, len(parts))
+        a = list(args); a[idx] = p
+        e = dict(env or {}); e["VERIF_START"] = str(start)
+        vdrive(ctx, a, timeout=timeout, env=e, ok_codes=(0, 3))
+        parts.append(p)
+        last_sc, hung = None, False
+        for ev in read_ndjson(p):
+            if ev.get("ev") == "Reset" and "sc" in ev:
+                last_sc = ev["sc"]
+            hung = str(ev.get("res", "")).startswith("hang")
+        if hung and last_sc is not None and last_sc >= start:
+            start = last_sc + 1
+            continue
+        break
+    with open(trace, "w") as out:
+        for p in parts:
+            out.write(open(p).read())
+            os.remove(p)
+    return len(parts)
+
+
 def read_ndjson(path, limit=None):
     out = []
     with open(path) as f:
